@@ -6,6 +6,7 @@ import (
 	"time"
 
 	"github.com/grafana/carbon-relay-ng/aggregator"
+	dest "github.com/grafana/carbon-relay-ng/destination"
 	"github.com/grafana/carbon-relay-ng/matcher"
 	"github.com/grafana/carbon-relay-ng/rewriter"
 	"github.com/grafana/carbon-relay-ng/route"
@@ -281,5 +282,94 @@ func VerifC18Writers() {
 	}
 	snap := t.Snapshot()
 	verifAssert(len(snap.Routes) == routes && len(snap.Blacklist) == black && len(snap.Rewriters) == rws && len(snap.Aggregators) == 1, "concurrent-admin-changes-both-applied")
+	verifCover("end")
+}
+
+// VerifC18TableRouteOps: the admin operations that address a route by key through the table (delDest, modDest,
+// modRoute -> Table.DelDestination / UpdateDestination / UpdateRoute) change exactly the addressed entry:
+// an unknown route key or a destination index beyond the end is rejected with an error and leaves the table
+// unchanged; otherwise only the addressed route changes, and within it only the addressed destination
+// (removed / its filter replaced) resp. only the route's own filter. Two real routes (send-all, send-first)
+// with two destinations each; key, index and operation are chosen by the solver.
+func VerifC18TableRouteOps() {
+	t := verifNewTable(m20.NoneLegacy, m20.NoneM20, false)
+	all, _ := matcher.New("", "", "", "", "", "")
+	keys := []string{"ra", "rb", "zz"}
+	prefixes := [][]string{{"p00", "p01"}, {"p10", "p11"}}
+	addrs := [][]string{{"127.0.0.1:2100", "127.0.0.1:2101"}, {"127.0.0.1:2110", "127.0.0.1:2111"}}
+	for ri := 0; ri < 2; ri++ {
+		var ds []*dest.Destination
+		for j := 0; j < 2; j++ {
+			m, _ := matcher.New(prefixes[ri][j], "", "", "", "", "")
+			d, err := dest.New(keys[ri], m, addrs[ri][j], "/tmp/verif-spool", false, false, 1e9, 1e9, 10, 100, 10, 1000, 10, 1e9, 1e6, 1e6)
+			if err != nil {
+				panic(err)
+			}
+			ds = append(ds, d)
+		}
+		var r route.Route
+		var err error
+		if ri == 0 {
+			r, err = route.NewSendAllMatch(keys[ri], all, ds)
+		} else {
+			r, err = route.NewSendFirstMatch(keys[ri], all, ds)
+		}
+		if err != nil {
+			panic(err)
+		}
+		t.AddRoute(r)
+	}
+	verifSettle()
+	before := t.Snapshot()
+	kc := verifChoice("key", 3) // 2 = a key no route has
+	idx := verifChoice("idx", 3) // 2 = beyond the end
+	op := verifChoice("op", 3)
+	var err error
+	switch op {
+	case 0:
+		err = t.DelDestination(keys[kc], idx)
+	case 1:
+		err = t.UpdateDestination(keys[kc], idx, map[string]string{"prefix": "new"})
+	case 2:
+		err = t.UpdateRoute(keys[kc], map[string]string{"prefix": "new"})
+	}
+	verifSettle()
+	after := t.Snapshot()
+	rejected := kc == 2 || (op != 2 && idx == 2)
+	if rejected {
+		verifAssert(err != nil, "unknown-route-or-index-beyond-end-rejected")
+	} else {
+		verifAssert(err == nil, "valid-operation-accepted")
+	}
+	verifAssert(len(after.Routes) == 2, "both-routes-still-there")
+	if len(after.Routes) != 2 {
+		return
+	}
+	for ri := 0; ri < 2; ri++ {
+		b, a := before.Routes[ri], after.Routes[ri]
+		verifAssert(a.Key == b.Key && a.Type == b.Type, "route-order-and-kind-unchanged")
+		wantRoutePrefix := ""
+		var wantDests []string // prefix|addr of the destinations expected afterwards
+		for j := range b.Dests {
+			wantDests = append(wantDests, b.Dests[j].Matcher.Prefix+"|"+b.Dests[j].Addr)
+		}
+		if !rejected && ri == kc {
+			switch op {
+			case 0:
+				wantDests = append(append([]string{}, wantDests[:idx]...), wantDests[idx+1:]...)
+			case 1:
+				wantDests[idx] = "new|" + b.Dests[idx].Addr
+			case 2:
+				wantRoutePrefix = "new"
+			}
+		}
+		verifAssert(a.Matcher.Prefix == wantRoutePrefix, "route-filter-changed-only-by-modRoute-on-this-route")
+		verifAssert(len(a.Dests) == len(wantDests), "destination-count-as-expected")
+		if len(a.Dests) == len(wantDests) {
+			for j := range wantDests {
+				verifAssert(a.Dests[j].Matcher.Prefix+"|"+a.Dests[j].Addr == wantDests[j], "only-the-addressed-destination-changed")
+			}
+		}
+	}
 	verifCover("end")
 }
